@@ -57,6 +57,15 @@ def main():
                     out[tag + "_ir"] = irutil.ir_to_json(back)
                 except Exception as e:
                     out[tag + "_parse"] = exc_kind(e)
+                    continue
+                # the next emission from what was read back (no wrapping): whatever line breaks the parser left in the
+                # description show here
+                try:
+                    import copy
+
+                    out[tag + "_again"] = kinds.to_source(c["kind"], kinds.emit(c["kind"], copy.deepcopy(back), dict(c["opts"], word_wrap=False)))
+                except Exception as e:
+                    out[tag + "_again"] = "raises:" + exc_kind(e)
         sys.stdout.write(json.dumps(out) + "\n")
         sys.stdout.flush()
 
